@@ -3,11 +3,14 @@ package props
 import (
 	"fmt"
 	"net/http"
+	"path"
 	"strings"
+	"time"
 
 	restful "github.com/emicklei/go-restful/v3"
 
 	"verifharness/core"
+	"verifharness/mon"
 	"verifharness/rt"
 )
 
@@ -179,6 +182,54 @@ func (m *mModel) probes() []rt.Req {
 	return out
 }
 
+// muxOwner is the executable reference of who answers a clean path p on the container's ServeMux: "framework" (a pattern
+// the container registered for a WebService: the fixed prefix of its root path and that prefix + "/", or "/" for a root that
+// is "/" or starts with a variable, after which later services register nothing), "handler" (a pattern given to Handle),
+// "redirect" (net/http answers 301 because only p+"/" is a pattern) or "none" (net/http's own 404). Most specific pattern wins.
+func muxOwner(roots []string, handlers []string, p string) string {
+	owner := map[string]string{}
+	for _, h := range handlers {
+		owner[h] = "handler"
+	}
+	onRoot := false
+	for _, root := range roots {
+		if onRoot {
+			break
+		}
+		if root == "" {
+			root = "/"
+		}
+		fixed := root
+		if k := strings.Index(root, "{"); k >= 0 {
+			fixed = root[:k]
+		}
+		if fixed == "/" || fixed == "" {
+			owner["/"] = "framework"
+			onRoot = true
+			continue
+		}
+		owner[fixed] = "framework"
+		if !strings.HasSuffix(fixed, "/") {
+			owner[fixed+"/"] = "framework"
+		}
+	}
+	if o, ok := owner[p]; ok {
+		return o
+	}
+	if !strings.HasSuffix(p, "/") {
+		if _, ok := owner[p+"/"]; ok {
+			return "redirect"
+		}
+	}
+	best, who := "", "none"
+	for pat, o := range owner {
+		if strings.HasSuffix(pat, "/") && strings.HasPrefix(p, pat) && len(pat) > len(best) {
+			best, who = pat, o
+		}
+	}
+	return who
+}
+
 func respSig(o *rt.Outcome) string {
 	if o.Panicked {
 		return "panic: " + o.Panic
@@ -264,7 +315,9 @@ func c11(ctx *core.Ctx) {
 			}
 			var desc string
 			var pan interface{}
-			func() {
+			opDone := make(chan struct{})
+			go func() {
+				defer close(opDone)
 				defer func() { pan = recover() }()
 				switch kind {
 				case "Add":
@@ -421,6 +474,16 @@ func c11(ctx *core.Ctx) {
 					}
 				}
 			}()
+			// a registration call that never returns: decided by goroutine state, the watchdog only says when to look
+			if blocked, timedOut := mon.WaitQuiescent(opDone, 40*time.Second); timedOut {
+				if len(blocked) > 0 {
+					ctx.Violation(hi, "c11:op-blocks:"+kind, fmt.Sprintf("after %v: %s never returned, parked in %s", opsLog, kind, blocked[0].Frame),
+						map[string]interface{}{"router": router, "history": opsLog, "blocked": blocked})
+				} else {
+					ctx.Inconclusive("a registration call did not return and no blocked go-restful frame was found: " + kind)
+				}
+				return
+			}
 			ctx.Eval(1)
 			// every route URL the history has ever declared stays in the probe set (also after its removal)
 			for _, sv := range m.Svcs {
@@ -457,7 +520,31 @@ func c11(ctx *core.Ctx) {
 				break
 			}
 			bad := false
+			var roots, patterns []string
+			for _, sv := range m.Svcs {
+				roots = append(roots, sv.Root)
+			}
+			for _, h := range m.Handlers {
+				patterns = append(patterns, h.Pattern)
+			}
 			for pi := range probes {
+				// "through ServeHTTP and through Dispatch": where the container's own ServeMux patterns own the URL, the
+				// two entry points give the same answer (reachable through one means reachable through the other)
+				if pp := probes[pi].Path; (path.Clean(pp) == pp || path.Clean(pp)+"/" == pp) && muxOwner(roots, patterns, pp) == "framework" {
+					viaMux := rt.Run(c, rt.ServeHTTP, &probes[pi])
+					direct := rt.Run(c, rt.Dispatch, &probes[pi])
+					ctx.Eval(2)
+					ctx.Count("probes_compared_across_entry_points", 1)
+					if sa, sb := respSig(viaMux), respSig(direct); sa != sb {
+						d := doc
+						d["probe"] = probes[pi]
+						d["via_servehttp"] = sa
+						d["via_dispatch"] = sb
+						ctx.Violation(hi, "c11:entry-points-differ:after="+kind, fmt.Sprintf("after %v: %s %s -> %s via ServeHTTP but %s via Dispatch, although the container's ServeMux patterns own that URL", opsLog, probes[pi].Method, probes[pi].Path, sa, sb), d)
+						bad = true
+						break
+					}
+				}
 				for _, entry := range []string{rt.ServeHTTP, rt.Dispatch} {
 					a := rt.Run(c, entry, &probes[pi])
 					b := rt.Run(fresh, entry, &probes[pi])
